@@ -432,8 +432,105 @@ pub fn scenarios(tier: Tier, seed: u64) -> Vec<Scn> {
     v
 }
 
+/// `stop_listening` is documented as a global flag: several listen() calls may be given the same
+/// one, and a flag that is still set stops a listen() started later.  Returns a description of
+/// what did not stop, or None.
+fn shared_flag_pass(tag: &str) -> Result<Option<String>, String> {
+    use std::sync::atomic::AtomicBool;
+    use std::sync::Arc;
+    let flag = Arc::new(AtomicBool::new(false));
+    let dir = run_dir();
+    let mut handles = Vec::new();
+    let mut paths = Vec::new();
+    for k in 0..3 {
+        let path = dir.join(format!("{}-{}", tag, k));
+        let addr = format!("unix:{}", path.display());
+        paths.push(path);
+        let f = flag.clone();
+        let a = addr.clone();
+        handles.push((
+            addr,
+            std::thread::spawn(move || {
+                let lc = varlink::ListenConfig { stop_listening: Some(f), idle_timeout: 0, ..Default::default() };
+                varlink::listen(standard_service(SvcCfg::default()), &a, &lc).map_err(|e| format!("{:?}", e.kind()))
+            }),
+        ));
+    }
+    for (addr, _) in &handles {
+        let t0 = Instant::now();
+        while RawConn::connect(addr).is_err() {
+            if t0.elapsed() > Duration::from_secs(10) {
+                return Err(format!("listener {} not ready", addr));
+            }
+            std::thread::sleep(Duration::from_millis(5));
+        }
+    }
+    flag.store(true, Ordering::SeqCst);
+    let t_set = Instant::now();
+    let mut problems = Vec::new();
+    for (k, (addr, h)) in handles.into_iter().enumerate() {
+        while !h.is_finished() && t_set.elapsed() < Duration::from_secs(10) {
+            std::thread::sleep(Duration::from_millis(20));
+        }
+        if !h.is_finished() {
+            problems.push(format!("listener {} of 3 sharing one stop flag is still accepting 10 s after the flag was set ({})", k + 1, addr));
+            continue; // the thread is left behind; the process ends with the check
+        }
+        match h.join() {
+            Ok(Ok(())) => {}
+            Ok(Err(e)) => problems.push(format!("listener {} returned Err({})", k + 1, e)),
+            Err(_) => problems.push(format!("listener {} panicked", k + 1)),
+        }
+        if paths[k].exists() {
+            problems.push(format!("listener {} left its socket file behind", k + 1));
+        }
+    }
+    // the flag is still set: a listen() started now has been told to stop already
+    if problems.is_empty() {
+        let path = dir.join(format!("{}-late", tag));
+        let addr = format!("unix:{}", path.display());
+        let f = flag.clone();
+        let h = std::thread::spawn(move || {
+            let lc = varlink::ListenConfig { stop_listening: Some(f), idle_timeout: 0, ..Default::default() };
+            varlink::listen(standard_service(SvcCfg::default()), &addr, &lc).map_err(|e| format!("{:?}", e.kind()))
+        });
+        let t0 = Instant::now();
+        while !h.is_finished() && t0.elapsed() < Duration::from_secs(10) {
+            std::thread::sleep(Duration::from_millis(20));
+        }
+        if !h.is_finished() {
+            problems.push("a listen() started while the flag is still set is still accepting 10 s later".into());
+        } else if let Ok(Err(e)) = h.join() {
+            problems.push(format!("a listen() started while the flag is still set returned Err({})", e));
+        }
+    }
+    let _ = std::fs::remove_dir_all(&dir);
+    Ok(if problems.is_empty() { None } else { Some(problems.join("; ")) })
+}
+
+fn shared_flag(ctx: &Ctx) {
+    let mut seen = Vec::new();
+    for attempt in 0..3 {
+        match shared_flag_pass(&format!("sf{}", attempt)) {
+            Err(e) => return ctx.inconclusive(json!({"shared_flag": e})),
+            Ok(None) => {
+                if attempt == 0 {
+                    ctx.case(Some(hash_of(&"shared-stop-flag")));
+                    ctx.count("shared_flag_listeners_stopped", 4);
+                } else {
+                    ctx.inconclusive(json!({"shared_flag": "a listener was late once but not when repeated", "first": seen}));
+                }
+                return;
+            }
+            Ok(Some(p)) => seen.push(p),
+        }
+    }
+    ctx.violation("c15:stop-flag-not-honoured-by-every-listen-call", json!({"engine": "c15-shared-flag", "message": seen}));
+}
+
 pub fn main(ctx: &Ctx) -> i32 {
-    ctx.set_rule("scenario matrix {idle_timeout 0,1,2 s} x {no flag, set before listen, set while connections are active, present but never set} x pools {(1,1),(1,4),(2,100)} x histories {none, arrival shortly before the deadline, long-lived across 2-3 deadlines, close within +-20 ms of the deadline, streaming reply in flight at flag/deadline, queued-but-accepted connection at stop, churn: a new connection every 20-60 ms for 6 s after the flag} x jitter seeds; distinct = scenario incl. jitter; non-trivial = >=1 connection or an idle deadline that expired");
+    shared_flag(ctx);
+    ctx.set_rule("scenario matrix {idle_timeout 0,1,2 s} x {no flag, set before listen, set while connections are active, present but never set} x pools {(1,1),(1,4),(2,100)} x histories {none, arrival shortly before the deadline, long-lived across 2-3 deadlines, close within +-20 ms of the deadline, streaming reply in flight at flag/deadline, queued-but-accepted connection at stop, churn: a new connection every 20-60 ms for 6 s after the flag} x jitter seeds; plus one stop flag shared by three listen() calls and reused by a fourth started while it is still set; distinct = scenario incl. jitter; non-trivial = >=1 connection or an idle deadline that expired");
     ctx.assume("all timestamps come from one Instant clock in one process; connect() returning precedes the server's accept, so 'no Timeout earlier than T after the last connect' is a safe bound");
     ctx.assume("promptness is bounded: later of {flag set, last accepted connection drained} (+T for idle) + 100 ms quantum + 3 s slack; a late scenario is re-run alone 3 times and only a consistent lateness is a violation");
     let scns = scenarios(ctx.tier, ctx.seed);
@@ -503,6 +600,9 @@ fn scn_json(s: &Scn) -> Value {
 }
 
 pub fn replay(ctx: &Ctx, w: &Value) {
+    if w.get("engine").and_then(|v| v.as_str()) == Some("c15-shared-flag") {
+        return shared_flag(ctx);
+    }
     let j = &w["scn"];
     let flag = match j["flag"].as_str() {
         Some("Before") => FlagPlan::Before,
